@@ -20,9 +20,10 @@ ASSUMPTIONS = [
     'rx.from_ delivers the chunks synchronously in order',
 ]
 
-TEXT = st.text(alphabet=st.one_of(
-    st.sampled_from('ab \r\t"\\,\x00\u00e9\u2028\U0001F600'), st.characters(blacklist_characters='\n', blacklist_categories=('Cs',))),
-    max_size=12)
+from vf.gen import weighted_text
+TEXT = weighted_text(st.one_of(
+    st.sampled_from(list('ab \r\t"\\,\x00') + [chr(0xe9), chr(0x2028), chr(0x85), chr(0x1F600)]),
+    st.characters(blacklist_characters='\n', blacklist_categories=('Cs',))), max_size=12)
 
 
 def chunk(stream, cuts):
@@ -127,10 +128,10 @@ def lp_case(draw, max_items=8, with_cuts=True, small=False):
         items = draw(st.lists(st.binary(max_size=4), max_size=3))
     else:
         items = draw(st.lists(BYTES, max_size=max_items))
-        if p == 1 and draw(st.integers(0, 9)) == 0:
+        if with_cuts and p == 1 and draw(st.integers(0, 9)) == 0:
             # boundary: the largest payload a 1-byte prefix can describe
             items.insert(draw(st.integers(0, len(items))), bytes(range(255)))
-        if p == 2 and draw(st.integers(0, 19)) == 0:
+        if with_cuts and p == 2 and draw(st.integers(0, 19)) == 0:
             items.insert(draw(st.integers(0, len(items))), bytes(i % 251 for i in range(draw(st.sampled_from([256, 300, 65535])))))
     n = sum(len(i) + p for i in items)
     case = {'items': [i.hex() for i in items], 'prefix': p, 'order': order}
